@@ -77,6 +77,25 @@ func (e *Exec) jsonConvert(srcT types.Type, v Value, dstT types.Type, cur Value)
 		}
 		return v
 	}
+	// JSON has no pointers: a marshalled *T is T (or null), and T unmarshals into *T
+	if sp, ok := srcT.Underlying().(*types.Pointer); ok {
+		if _, dp := dstT.Underlying().(*types.Pointer); !dp {
+			p := v.(Ptr)
+			if p.IsNil() {
+				return cur // JSON null leaves a non-pointer target unchanged
+			}
+			if p.L == nil {
+				e.ooe("json model: element pointer")
+			}
+			return e.jsonConvert(sp.Elem(), e.load(p.L), dstT, cur)
+		}
+	} else if dp, ok := dstT.Underlying().(*types.Pointer); ok {
+		if _, isIface := srcT.Underlying().(*types.Interface); !isIface {
+			nl := e.newLoc(dp.Elem())
+			e.store(nl, e.jsonConvert(srcT, v, dp.Elem(), e.load(nl)))
+			return Ptr{L: nl}
+		}
+	}
 	if _, ok := dstT.(*types.Named); ok && e.hasJSONMethods(dstT) {
 		e.ooe("json model: type %v has custom (un)marshalling methods", dstT)
 	}
@@ -115,7 +134,7 @@ func (e *Exec) jsonConvert(srcT types.Type, v Value, dstT types.Type, cur Value)
 		if s.Arr == nil {
 			return SliceV{}
 		}
-		if isByteSlice(dstT) && e.jsonBlobs[s.Arr] != nil {
+		if isByteSlice(dstT) && e.blobOf(s) != nil {
 			return s // marshalled bytes travel by reference (immutable)
 		}
 		na := e.newArrayLoc(d.Elem(), s.Len)
@@ -194,6 +213,20 @@ func (e *Exec) jsonConvert(srcT types.Type, v Value, dstT types.Type, cur Value)
 	return nil
 }
 
+// blobOf: the snapshot carried by a marshalled buffer (the tag lives in the buffer's single
+// opaque byte, so copies made with append/copy/bytes.Buffer keep it); nil for other bytes.
+func (e *Exec) blobOf(s SliceV) *jsonBlob {
+	if s.Arr == nil || s.Len != 1 {
+		return nil
+	}
+	if o, ok := s.Arr.Kids[s.Off].V.(*Opaque); ok {
+		if b, ok := o.Data.(*jsonBlob); ok {
+			return b
+		}
+	}
+	return nil
+}
+
 func (e *Exec) jsonMarshal(v Value) SliceV {
 	iv, ok := v.(IfaceV)
 	if !ok || iv.T == nil {
@@ -202,11 +235,7 @@ func (e *Exec) jsonMarshal(v Value) SliceV {
 	snap := e.jsonConvert(iv.T, iv.V, iv.T, nil)
 	byteT := types.Typ[types.Uint8]
 	arr := e.newArrayLoc(byteT, 1)
-	arr.Kids[0].V = &Opaque{"bytes produced by json.Marshal (json model)"}
-	if e.jsonBlobs == nil {
-		e.jsonBlobs = map[*Loc]*jsonBlob{}
-	}
-	e.jsonBlobs[arr] = &jsonBlob{T: iv.T, V: snap}
+	arr.Kids[0].V = &Opaque{What: "bytes produced by json.Marshal (json model)", Data: &jsonBlob{T: iv.T, V: snap}}
 	e.stubs["encoding/json: Marshal = deep snapshot carried by an opaque buffer, Unmarshal/Decode = field-by-field rebuild by JSON name (exported fields, json tags, json:\"-\"); bytes never inspected; non-JSON concrete bytes give a decode error"] = true
 	return SliceV{Arr: arr, Off: 0, Len: 1, Cap: 1}
 }
@@ -214,11 +243,8 @@ func (e *Exec) jsonMarshal(v Value) SliceV {
 // jsonUnmarshal returns the error value (nil error = success).
 func (e *Exec) jsonUnmarshal(data SliceV, target Value) Value {
 	errT := types.Universe.Lookup("error").Type()
-	var blob *jsonBlob
-	if data.Arr != nil {
-		blob = e.jsonBlobs[data.Arr]
-	}
-	if blob == nil || data.Off != 0 {
+	blob := e.blobOf(data)
+	if blob == nil {
 		// concrete, non-marshalled bytes: malformed input is an error, anything else is
 		// outside the model
 		if data.Arr == nil || data.Len == 0 {
@@ -306,7 +332,7 @@ func init() {
 		})
 		w.reg("encoding/json.Valid", func(e *Exec, fn *ssa.Function, a []Value) Value {
 			s := a[0].(SliceV)
-			if s.Arr != nil && e.jsonBlobs[s.Arr] != nil {
+			if e.blobOf(s) != nil {
 				return e.tb.True
 			}
 			e.ooe("json.Valid of bytes not produced by json.Marshal")
